@@ -199,7 +199,10 @@ theorem dfs_loop (s : St) (t : Nat) : ∀ (m : Nat) (stack seen : List Nat) (σ 
         rw [hkids] at this; cases this
     have hok := hI.fi.tok top e he
     simp only [List.isEmpty_nil, if_true]
-    rw [run_bind, run_revokeInternal_skip F2 top e σ he hok.pend hok.cache hok.tlc]
+    have hdk : destroyKey top e = some (ckey top e) := by
+      have := destroyKey_eq_routerKey top e (hI.fi.entryWf top e he)
+      rw [this.1, this.2]
+    rw [run_bind, run_revokeInternal_skip F2 top e σ he hok.pend hok.cache hok.tlc hdk]
     simp only
     have hsh' := purge1_shrink hI.sh hI.fi he
     have hfi' := purge1_finv hI.fi he
